@@ -96,6 +96,16 @@ def gen_case(rng, s):
         group.append("sdef")
     elif not nonnull or arg.get("default") is not None:
         sels.append("omitted: %s" % fn)
+    if nonnull and arg.get("default") is not None:
+        # a nullable variable is allowed at a non-null position that declares a default; a null runtime value
+        # (explicit, or through the variable's own default) must fail the field, not fall back to the default
+        decls.append("$z: %s" % gen.type_sdl(t[1]))
+        variables["z"] = None
+        sels.append("nznull: %s(x: $z)" % fn)
+        decls.append("$y: %s = null" % gen.type_sdl(t[1]))
+        sels.append("nydefnull: %s(x: $y)" % fn)
+        decls.append("$q: %s" % gen.type_sdl(t[1]))       # declared, never provided: the default applies
+        sels.append("nqabsent: %s(x: $q)" % fn)
     if not nonnull:
         sels.append("nul: %s(x: null)" % fn)
         decls.append("$n: %s" % gen.type_sdl(t))
